@@ -2108,9 +2108,16 @@ func (lbc *LoadBalancerController) updateVirtualServerRoutesStatusFromEvents() e
 	return nil
 }
 
+// getIPAddressesFromEndpoints returns the addresses of the endpoints, each address once:
+// podEndpoints that differ only in the Pod they name share one upstream server.
 func getIPAddressesFromEndpoints(endpoints []podEndpoint) []string {
 	var endps []string
+	seen := make(map[string]struct{}, len(endpoints))
 	for _, ep := range endpoints {
+		if _, exists := seen[ep.Address]; exists {
+			continue
+		}
+		seen[ep.Address] = struct{}{}
 		endps = append(endps, ep.Address)
 	}
 	return endps
